@@ -114,7 +114,7 @@ Fixpoint span (p : byte -> bool) (s : bytes) : Z :=
 
 (* the Go helper loops `for i := 0; i < length; i++ { if !p(s[i]) return i }; return length`:
    they index s[i] for every i < length, so a length beyond len(s) panics. *)
-Fixpoint span_n (site : string) (p : byte -> bool) (s : bytes) (n : nat) : res Z :=
+Fixpoint span_n (site : string) (p : byte -> bool) (s : bytes) (n : nat) {struct n} : res Z :=
   match n with
   | O => Ok 0
   | S n' =>
